@@ -339,7 +339,12 @@ struct FilesEngine : Engine {
 			p.par["kind"] = "zif";
 			std::string img;
 			std::string origin = r.pick(sysfiles());
-			real_file_bytes(origin, img);
+			if (r.chance(1, 5)) {
+				/* shapes the installed database does not have: hundreds of types, thousands of transitions, v1 only */
+				origin = "synthetic";
+				img = synth_zone_image(r, r.chance(1, 3));
+			} else
+				real_file_bytes(origin, img);
 			p.par["origin"] = origin;
 			SimFile f;
 			f.path = "/sim/zi/Z";
@@ -353,7 +358,7 @@ struct FilesEngine : Engine {
 				g.data = other;
 				p.files.push_back(g);
 			}
-			if (r.chance(9, 10))
+			if (r.chance(origin == "synthetic" ? 1 : 9, origin == "synthetic" ? 2 : 10))
 				zone_faults(r, img, p);
 			if (r.chance(1, 6))
 				sys_faults(r, p, true);
@@ -373,10 +378,24 @@ struct FilesEngine : Engine {
 			SimFile f;
 			f.path = "/sim/m.tzmap";
 			f.data = src.text();
-			if (r.chance(1, 10)) {
-				/* a few malformed lines, which must not produce entries */
+			if (r.chance(1, 6)) {
+				/* a few malformed lines, which must not produce entries and must not end the compile:
+				 * at the end, at the start, or between two entries */
 				static const char *bad[] = {"NOTAB\n", "\tEurope/Berlin\n", "\n", "\n"};
-				f.data += bad[r.below(4)];
+				size_t nb = (size_t)r.range(1, 3);
+				for (size_t i = 0; i < nb; i++) {
+					auto lines = split_lines_keep(f.data);
+					size_t at = r.chance(1, 3) ? lines.size() : r.below(lines.size() + 1);
+					std::string d;
+					for (size_t k = 0; k < lines.size(); k++) {
+						if (k == at)
+							d += bad[r.below(4)];
+						d += lines[k];
+					}
+					if (at >= lines.size())
+						d += bad[r.below(4)];
+					f.data = d;
+				}
 			}
 			p.files.push_back(f);
 			unsigned m = (unsigned)r.below(100);
@@ -811,6 +830,17 @@ struct FilesEngine : Engine {
 				specs.push_back((second ? "mm:" : "m:") + ent[pick[k]].first);
 				plain.push_back(second ? ent[(pick[k] + 1) % ent.size()].second : ent[pick[k]].second);
 			}
+			/* now and then specs whose map cannot be opened (no such file, or not a map), the same map name twice:
+			 * they must resolve to nothing, whatever was resolved before them */
+			std::string badimg;
+			if ((h >> 9) & 1) {
+				const char *bm = ((h >> 10) & 1) ? "nomap:" : "bad:";
+				std::vector<std::string> s2 = {specs[0], bm + ent[pick[1 % pick.size()]].first, specs[1], bm + ent[pick[0]].first, bm + ent[pick[0]].first};
+				std::vector<std::string> p2 = {plain[0], "", plain[1], "", ""};
+				specs = s2;
+				plain = p2;
+				badimg = std::string("TZm1 this is not a compiled zone map, it only starts like one....", 64);
+			}
 			bool usable = true;
 			for (auto &sp : specs)
 				if (sp.size() > 200 || sp.find_first_of(" \t\n") != std::string::npos || sp[0] == '-')
@@ -818,7 +848,9 @@ struct FilesEngine : Engine {
 			/* dzone takes a name it cannot open for a date/time and then prints differently: installed zones only */
 			for (auto &z : plain) {
 				std::string dummy;
-				if (z.empty() || z[0] == '/' || !real_file_bytes("/usr/share/zoneinfo/" + z, dummy))
+				if (z.empty())
+					continue;	/* a spec that must not resolve */
+				if (z[0] == '/' || !real_file_bytes("/usr/share/zoneinfo/" + z, dummy))
 					usable = false;
 			}
 			/* each map is compiled by its own incarnation of the compiler; the tool run only sees the images */
@@ -853,6 +885,12 @@ struct FilesEngine : Engine {
 				i2.path = "/sim/mm.tzmcc";
 				i2.data = img2;
 				t1.files = {i1, i2};
+				if (!badimg.empty()) {
+					SimFile i3;
+					i3.path = "/sim/bad.tzmcc";
+					i3.data = badimg;
+					t1.files.push_back(i3);
+				}
 				t1.argv = {"dzone"};
 				for (auto &sp : specs)
 					t1.argv.push_back(sp);
@@ -870,6 +908,8 @@ struct FilesEngine : Engine {
 				};
 				std::string expect;
 				for (auto &z : plain) {
+					if (z.empty())
+						continue;
 					Plan t2;
 					t2.engine = p.engine;
 					t2.variant = p.variant;
